@@ -78,17 +78,20 @@ type closureInfo struct {
 
 // Exec symbolically executes one function (and inlined callees) into a Script.
 type Exec struct {
-	V         *Verifier
-	sc        *Script
-	root      *ssa.Function
-	obls      []*Obligation
-	notes     map[string]bool // assumptions / unsupported features encountered
-	counts    map[string]int  // for obligation naming
-	depth     int
-	ifaces    map[string]*types.Interface // interfaces asserted against
-	lockMode  bool
-	private   []Term // refs of non-escaping local cells (all frames)
-	noRestore map[string]bool
+	V          *Verifier
+	sc         *Script
+	root       *ssa.Function
+	obls       []*Obligation
+	notes      map[string]bool // assumptions / unsupported features encountered
+	counts     map[string]int  // for obligation naming
+	depth      int
+	ifaces     map[string]*types.Interface // interfaces asserted against
+	lockMode   bool
+	private    []Term // refs of non-escaping local cells (all frames)
+	noRestore  map[string]bool
+	inRequires bool
+	lkRequired map[string]bool
+	lkInit     map[string]bool
 }
 
 type frame struct {
@@ -147,7 +150,17 @@ func (ex *Exec) get(st *State, comp, sort string) Term {
 	if t, ok := st.heap[comp]; ok {
 		return t
 	}
-	return ex.sc.declare("pre:"+comp, sort)
+	pre := ex.sc.declare("pre:"+comp, sort)
+	if ex.lockMode && strings.HasPrefix(comp, "LK:") {
+		if ex.inRequires {
+			ex.lkRequired[comp] = true
+		} else if !ex.lkRequired[comp] && !ex.lkInit[comp] {
+			// this goroutine holds no mutex at entry unless the contract requires one
+			ex.lkInit[comp] = true
+			ex.sc.axiom(eq(pre, Term{"((as const (Array Int Int)) 0)", sort}))
+		}
+	}
+	return pre
 }
 
 func (ex *Exec) set(st *State, comp string, t Term) {
@@ -198,6 +211,11 @@ func (ex *Exec) oblige(f *frame, st *State, kind, detail, label string, pos toke
 		return nil
 	}
 	fnName := funcName(f.fn)
+	if f.inline && lockKinds[kind] {
+		// lock-discipline obligations inside an inlined callee belong to the activation under verification
+		detail += "@" + shortFn(f.fn)
+		fnName = funcName(ex.root)
+	}
 	base := fnName + "#" + kind
 	if detail != "" {
 		base += ":" + detail
@@ -214,8 +232,11 @@ func (ex *Exec) oblige(f *frame, st *State, kind, detail, label string, pos toke
 		o.Pos = fmt.Sprintf("%s:%d", shortPos(p.Filename), p.Line)
 	}
 	ex.obls = append(ex.obls, o)
-	// after the check, execution continues only if it held
-	ex.assume(st, goal)
+	// after a check whose failure stops execution (a panic), the path continues only if it held;
+	// contract / lock obligations are not assumed (a definite failure must not make the rest vacuous)
+	if sweepKinds[kind] {
+		ex.assume(st, goal)
+	}
 	return o
 }
 
